@@ -32,6 +32,27 @@ KindsTab == [c \in ClassesRTProbe |->
 XTabRT == [c \in ClassesRTProbe |-> CASE c = "num" -> <<1>> [] c = "mixed" -> <<-1>> [] OTHER -> <<>>]
 TTabRT == [c \in ClassesRTProbe |-> CASE c = "num" -> <<"foo">> [] c = "mixed" -> <<"Foo", "bar">> [] OTHER -> <<>>]
 
+MI(n) == [f |-> FALSE, v |-> 2 * n]          \* the integer n
+MF(h) == [f |-> TRUE, v |-> h]               \* the float h/2 (h odd)
+MTabRT == [c \in ClassesRTProbe |-> CASE c = "num" -> MI(3) [] c = "mixed" -> MF(5) [] OTHER -> MI(-1)]
+
+\* ---- C01 late / sparse column classes (6 abstract columns).  Every class has one column it shares with
+\* some other class and one column only it has, so a block that holds several different classes has several
+\* columns that first appear at a record > 0 (back-filled), go missing again at later records, and further
+\* columns appearing after that - all inside dictionary-encoded blocks.
+K6(c1, c2, c3, c4, c5, c6) == [c1 |-> c1, c2 |-> c2, c3 |-> c3, c4 |-> c4, c5 |-> c5, c6 |-> c6]
+ColsLate == {"c1", "c2", "c3", "c4", "c5", "c6"}
+ClassesLate == {"base", "la", "lb", "lc", "ld"}
+KindsTabLate == [c \in ClassesLate |->
+                   CASE c = "base" -> K6("int", "str", "absent", "absent", "absent", "absent")
+                     [] c = "la"   -> K6("int", "absent", "str", "absent", "absent", "absent")
+                     [] c = "lb"   -> K6("absent", "str", "absent", "int", "absent", "absent")
+                     [] c = "lc"   -> K6("int", "absent", "absent", "absent", "str", "absent")
+                     [] c = "ld"   -> K6("absent", "str", "absent", "absent", "absent", "flt")]
+XTabLate == [c \in ClassesLate |-> <<>>]
+TTabLate == [c \in ClassesLate |-> <<>>]
+MTabLate == [c \in ClassesLate |-> IF c \in {"la", "ld"} THEN MF(3) ELSE MI(2)]
+
 \* ---- C03 query / pruning classes: x in {-2..2} or missing, t over words with case and sub-words
 ClassesQ == {"n2", "n1", "z", "p1", "p2", "nox"}
 XTabQ == [c \in ClassesQ |-> CASE c = "n2" -> <<-2>> [] c = "n1" -> <<-1>> [] c = "z" -> <<0>>
@@ -40,6 +61,9 @@ TTabQ == [c \in ClassesQ |-> CASE c = "n2" -> <<"foo">> [] c = "n1" -> <<"Foo", 
                                [] c = "p1" -> <<"bar", "Foo">> [] c = "p2" -> <<>> [] OTHER -> <<"foo", "BAR">>]
 KindsTabQ == [c \in ClassesQ |-> K(IF XTabQ[c] = <<>> THEN "absent" ELSE "int", "absent", "absent",
                                    IF TTabQ[c] = <<>> THEN "absent" ELSE "str")]
+\* the measure m: integers and floats mixed, so that integers arrive after the first float of a segment
+MTabQ == [c \in ClassesQ |-> CASE c = "n2" -> MI(-2) [] c = "n1" -> MF(-3) [] c = "z" -> MI(0)
+                               [] c = "p1" -> MF(5) [] c = "p2" -> MI(2) [] OTHER -> MI(10)]
 ClassesQ3 == {"n1", "p1", "nox"}
 ClassesQ4 == {"n1", "z", "p1", "nox"}
 
